@@ -1,7 +1,7 @@
 /-
 C12 — Block identity commits to its content; part sets reassemble only the original.
 
-Property theorems about `Model.PartSet` (types/part_set.go as it is: repaired negative-index check, unchecked header total),
+Property theorems about `Model.PartSet` (types/part_set.go as it is: index check of fix 22a07c6; the header total is bounded by the callers, fix 1b2bd5e),
 `Model.BlockId` and the facts regenerated from the Go source (`Gen.BlockId`).
 The Merkle-tree theorems (`verify_sound`, `verify_complete`, `root_inj_same_length`) are in `C12Merkle`.
 Cryptographic laws are hypotheses: `Inj2 H2` (two-hash) and `Function.Injective LH` (part hash).
@@ -14,8 +14,8 @@ import LinkVerif.Props.C12Merkle
 namespace Props.C12
 open Model.Merkle Model.PartSet
 
-/-! ## 1. Part admission never panics (true since the repair of the negative-index defect);
-`NewPartSetFromHeader` still panics on an out-of-range `Total` -/
+/-! ## 1. Part admission never panics (fix 22a07c6); a part-set header from a peer is bounded at the two
+entry points before it sizes an allocation (fix 1b2bd5e) -/
 
 /-- FULL STATEMENT: on a well-formed part set (`len(parts) = total`) `AddPart` never panics, whatever
 part a peer sends (any index incl. negative, any bytes, any proof). -/
@@ -46,21 +46,71 @@ theorem addPart_negative_index {D : Type} [DecidableEq D] (H2 : D → D → D) (
   unfold addPart
   rw [if_pos (Or.inl h)]
 
-/-- FULL STATEMENT: `NewPartSetFromHeader` never panics on a header received from a peer. -/
+/-- the guard fix 1b2bd5e put at BOTH entry points that take a part-set header from a peer
+(`ConsensusState.defaultSetProposal`, before the signature check, and `ConsensusReactor.Receive`, before
+`PeerState.SetHasProposal`): `Total <= 0 || Total > maxBlockParts()` rejects the proposal -/
+def totalGuardOK (total maxParts : Int) : Bool := !(decide (total ≤ 0) || decide (total > maxParts))
+
+/-- `ConsensusState.maxBlockParts`: `BlockSize.MaxBytes / BlockPartSizeBytes + 1` (0 for a non-positive part size) -/
+def maxBlockParts (maxBytes partSize : Int) : Int := if partSize ≤ 0 then 0 else maxBytes / partSize + 1
+
+/-- `types.MaxBlockSizeBytes` (ConsensusParams.Validate rejects a larger `BlockSize.MaxBytes`) -/
+def maxBlockSizeBytes : Int := 104857600
+
+/-- FULL STATEMENT: a part-set header that passed the entry-point guard never makes `NewPartSetFromHeader`
+panic (for validated consensus parameters: `MaxBytes ≤ 100 MB`). -/
 def C12_header_total_statement : Prop :=
-  ∀ (total : Int) (hash : Tree), ∃ ps, newFromHeader total hash = .ok ps
+  ∀ (D : Type) (total maxBytes partSize : Int) (hash : D), maxBytes ≤ maxBlockSizeBytes →
+    totalGuardOK total (maxBlockParts maxBytes partSize) = true →
+    newFromHeader total hash = .ok (emptyPS total hash)
 
-/-- `Total = -1` (and every `Total > 2^45`): `make([]*Part, Total)` panics -/
-theorem C12_header_total_counterexample : ¬ C12_header_total_statement := by
-  intro h
-  obtain ⟨ps, hps⟩ := h (-1) (Tree.leaf 0)
-  revert hps
-  simp [newFromHeader]
+theorem C12_header_total : C12_header_total_statement := by
+  intro D total maxBytes partSize hash hmax hg
+  unfold totalGuardOK maxBlockParts at hg
+  simp only [Bool.not_eq_true', Bool.or_eq_false_iff, decide_eq_false_iff_not] at hg
+  unfold newFromHeader maxSliceLen
+  unfold maxBlockSizeBytes at hmax
+  split at hg
+  · omega
+  · rename_i hp
+    have hdiv : maxBytes / partSize ≤ maxBytes ∨ maxBytes < 0 := by
+      by_cases h0 : 0 ≤ maxBytes
+      · left
+        exact Int.ediv_le_self _ h0
+      · right; omega
+    have hle : maxBytes / partSize + 1 ≤ 104857601 := by
+      rcases hdiv with h | h
+      · omega
+      · have : maxBytes / partSize ≤ 0 := by
+          have := Int.ediv_neg_of_neg_of_pos h (by omega : 0 < partSize)
+          omega
+        omega
+    rw [if_neg (by omega)]
 
-theorem C12_header_total_partial {D : Type} (total : Int) (hash : D) (h0 : 0 ≤ total) (h1 : total ≤ maxSliceLen) :
-    newFromHeader total hash = .ok (emptyPS total hash) := by
+/-- the bare function keeps its precondition (function-level partiality, NOT a finding since 1b2bd5e:
+no caller passes a peer-supplied total that did not go through the guard): outside `0 ≤ Total ≤ 2^45`
+`make([]*Part, Total)` panics -/
+theorem newFromHeader_precondition {D : Type} (total : Int) (hash : D) :
+    (0 ≤ total ∧ total ≤ maxSliceLen → newFromHeader total hash = .ok (emptyPS total hash)) ∧
+    (total < 0 ∨ total > maxSliceLen → newFromHeader total hash = .error .makeSlice) := by
   unfold newFromHeader
-  rw [if_neg (by omega)]
+  constructor
+  · intro h; rw [if_neg (by omega)]
+  · intro h; rw [if_pos h]
+
+/-- T2: in the CURRENT source both entry points compare `BlockPartsHeader.Total` with 0 and with the bound
+before the sized operation, and the bound is `MaxBytes / BlockPartSizeBytes + 1`.  Reverting fix 1b2bd5e
+(or weakening either comparison) breaks this obligation. -/
+theorem parts_total_guards_vetted :
+    Gen.BlockId.partsTotalGuards =
+      [("defaultSetProposal", true, ["proposal.BlockPartsHeader.Total <= 0", "proposal.BlockPartsHeader.Total > cs.maxBlockParts()"]),
+       ("ConsensusReactor.Receive", true, ["msg.Proposal.BlockPartsHeader.Total <= 0", "msg.Proposal.BlockPartsHeader.Total > maxParts"])] ∧
+    Gen.BlockId.maxBlockPartsReturns =
+      ["return 0", "return params.BlockSize.MaxBytes/params.BlockGossip.BlockPartSizeBytes + 1"] := by decide
+
+/-- non-vacuity: the default parameters (21 MB blocks, 32 kB parts) admit totals 1..673 and nothing else -/
+example : totalGuardOK 673 (maxBlockParts 22020096 32768) = true ∧ totalGuardOK 674 (maxBlockParts 22020096 32768) = false ∧
+    totalGuardOK 0 (maxBlockParts 22020096 32768) = false ∧ totalGuardOK (-1) (maxBlockParts 22020096 32768) = false := by decide
 
 /-! ## 2. Reassembly -/
 
